@@ -149,6 +149,25 @@ func dyXf2(c *hlib.Ctx, depth int) xf2 {
 	}
 }
 
+// factor3 / factor2: the distance factor ApplyDistance(1) of the real transform (code under test: guarded)
+func factor3(c *hlib.Ctx, t model3d.DistTransform, name string) (f float64, ok bool) {
+	res := hlib.Guard(func() string { f = t.ApplyDistance(1); return "ok" })
+	if res != "ok" || !finite(f) || f <= 0 {
+		c.PropFail("c07:ball-touches/transformed/apply-distance", fmt.Sprintf("ApplyDistance(1)=%v (%s) for %s", f, res, name))
+		return 0, false
+	}
+	return f, true
+}
+
+func factor2(c *hlib.Ctx, t model2d.DistTransform, name string) (f float64, ok bool) {
+	res := hlib.Guard(func() string { f = t.ApplyDistance(1); return "ok" })
+	if res != "ok" || !finite(f) || f <= 0 {
+		c.PropFail("c07:ball-touches/transformed/apply-distance", fmt.Sprintf("ApplyDistance(1)=%v (%s) for %s", f, res, name))
+		return 0, false
+	}
+	return f, true
+}
+
 // grid rounds x to a multiple of 2^-7 (at least 2^-7): a dyadic radius with few bits.
 func grid(x float64) float64 {
 	r := math.Round(x*128) / 128
@@ -217,7 +236,10 @@ func runXfBall(c *hlib.Ctx, n int) {
 			inner, innerName = model3d.GroupedTrianglesToCollider(append([]*model3d.Triangle{}, tris...)), "ungrouped"
 		}
 		col := model3d.TransformCollider(x.t, inner)
-		f := x.t.ApplyDistance(1)
+		f, fok := factor3(c, x.t, x.tok)
+		if !fok {
+			continue
+		}
 		// centre: dyadic, in the frame of the image
 		ctr := x.t.Apply(dy3(c))
 		if c.Rng.Intn(3) == 0 {
@@ -251,7 +273,10 @@ func runXfBall(c *hlib.Ctx, n int) {
 		center := dy3(c)
 		R := float64(1+c.Rng.Intn(16)) / 8
 		col := model3d.TransformCollider(x.t, &model3d.Sphere{Center: center, Radius: R})
-		f := x.t.ApplyDistance(1)
+		f, fok := factor3(c, x.t, x.tok)
+		if !fok {
+			continue
+		}
 		imgC := x.t.Apply(center)
 		// the offset centre -> ball centre: axis-aligned or a scaled Pythagorean triple (exact
 		// square root, so that tangent balls are exact), or arbitrary dyadic
@@ -310,7 +335,10 @@ func runXfBall(c *hlib.Ctx, n int) {
 			inner = model2d.GroupedSegmentsToCollider(append([]*model2d.Segment{}, segs...))
 		}
 		col := model2d.TransformCollider(x.t, inner)
-		f := x.t.ApplyDistance(1)
+		f, fok := factor2(c, x.t, x.tok)
+		if !fok {
+			continue
+		}
 		ctr := x.t.Apply(dy2(c))
 		if c.Rng.Intn(3) == 0 {
 			ctr = dy2(c)
@@ -342,7 +370,10 @@ func runXfBall(c *hlib.Ctx, n int) {
 		center := dy2(c)
 		R := float64(1+c.Rng.Intn(16)) / 8
 		col := model2d.TransformCollider(x.t, &model2d.Circle{Center: center, Radius: R})
-		f := x.t.ApplyDistance(1)
+		f, fok := factor2(c, x.t, x.tok)
+		if !fok {
+			continue
+		}
 		imgC := x.t.Apply(center)
 		var off v2
 		exact := true
@@ -378,6 +409,97 @@ func runXfBall(c *hlib.Ctx, n int) {
 		c.Emit(fmt.Sprintf("c07 tcirc2x %s %s %s %s %s", x.tok, v2Tok(rs, center), rs(R), v2Tok(rs, ctr), rs(r)), res)
 	}
 	runXfBallFloat(c, n)
+	runContainExact(c, n)
+}
+
+// runContainExact: model3d.ColliderContains (even-odd containment along the library's fixed direction, plus the
+// ball query for a margin) on dyadic meshes.  Origins lie on the 1/16-offset grid (never on a plane of an
+// axis-aligned face of the 1/8 grid), so the fixed direction - whose components are not in a small rational ratio -
+// meets no edge or vertex, and no float comparison in Möller-Trumbore is near its threshold.
+func runContainExact(c *hlib.Ctx, n int) {
+	for i := 0; i < n; i++ {
+		var tris []*model3d.Triangle
+		kindName := ""
+		switch c.Rng.Intn(3) {
+		case 0:
+			lo := dy3(c)
+			hi := lo.Add(model3d.XYZ(pow2(c, -1, 2), pow2(c, -1, 2), pow2(c, -1, 2)))
+			tris = model3d.NewMeshRect(lo, hi).TriangleSlice()
+			kindName = "boxmesh"
+		case 1:
+			// two boxes: nested or side by side or overlapping (union of closed meshes)
+			lo := dy3(c)
+			hi := lo.Add(model3d.XYZ(pow2(c, 0, 2), pow2(c, 0, 2), pow2(c, 0, 2)))
+			tris = model3d.NewMeshRect(lo, hi).TriangleSlice()
+			lo2 := lo.Add(model3d.XYZ(float64(c.Rng.Intn(5)-1)/4, float64(c.Rng.Intn(5)-1)/4, float64(c.Rng.Intn(5)-1)/4))
+			hi2 := lo2.Add(model3d.XYZ(pow2(c, -1, 1), pow2(c, -1, 1), pow2(c, -1, 1)))
+			tris = append(tris, model3d.NewMeshRect(lo2, hi2).TriangleSlice()...)
+			kindName = "twoboxes"
+		default:
+			k := 1 + c.Rng.Intn(6)
+			for j := 0; j < k; j++ {
+				tris = append(tris, ptri(c))
+			}
+			kindName = "soup"
+		}
+		tris = uniqueTris(tris) // coincident faces would be a mesh that is not in general position for any ray
+		var col model3d.Collider
+		switch c.Rng.Intn(3) {
+		case 0:
+			col = model3d.MeshToCollider(model3d.NewMeshTriangles(tris))
+		case 1:
+			col = model3d.GroupedTrianglesToCollider(append([]*model3d.Triangle{}, tris...))
+		default:
+			col = model3d.BVHToCollider(model3d.NewBVHAreaDensity(append([]*model3d.Triangle{}, tris...)))
+		}
+		min, max := col.Min(), col.Max()
+		o := model3d.XYZ(offGrid(c, min.X, max.X), offGrid(c, min.Y, max.Y), offGrid(c, min.Z, max.Z))
+		margin := 0.0
+		if c.Rng.Intn(3) == 0 {
+			margin = float64(c.Rng.Intn(17)-8) / 16
+			d := math.Inf(1)
+			for _, t := range tris {
+				d = math.Min(d, t.Dist(o))
+			}
+			if !separated(math.Abs(margin), d) {
+				margin = 0
+			}
+		}
+		res := hlib.Guard(func() string {
+			got := model3d.ColliderContains(col, o, margin)
+			r := &model3d.Ray{Origin: o, Direction: model3d.XYZ(0.5224892708603626, 0.10494477243214506, 0.43558938446126527)}
+			return fmt.Sprintf("%s %d", b01(got), col.RayCollisions(r, nil)%2)
+		})
+		c.Stat("containx."+kindName, 1)
+		c.Stat("containx.result."+strings.ReplaceAll(res, " ", "_"), 1)
+		var sb strings.Builder
+		fmt.Fprintf(&sb, "c07 containx %d", len(tris))
+		for _, t := range tris {
+			sb.WriteString(" " + triTokens(rs, t))
+		}
+		fmt.Fprintf(&sb, " %s %s", v3Tok(rs, o), rs(margin))
+		c.Emit(sb.String(), res)
+	}
+}
+
+// offGrid: an odd multiple of 1/16 in [lo-1/2, hi+1/2]
+func offGrid(c *hlib.Ctx, lo, hi float64) float64 {
+	a := math.Floor((lo-0.5)*8) / 8
+	span := int(math.Ceil((hi+0.5-a)*8)) + 1
+	return a + float64(c.Rng.Intn(span))/8 + 1.0/16
+}
+
+// uniqueTris: the set of triangles (mesh constructors deduplicate identical triangles)
+func uniqueTris(tris []*model3d.Triangle) []*model3d.Triangle {
+	seen := map[model3d.Triangle]bool{}
+	var out []*model3d.Triangle
+	for _, t := range tris {
+		if !seen[*t] {
+			seen[*t] = true
+			out = append(out, t)
+		}
+	}
+	return out
 }
 
 // ---------------------------------------------------------------- arbitrary transforms (PropFail)
@@ -419,7 +541,10 @@ func floatRadii(c *hlib.Ctx, d, f float64) []float64 {
 func runXfBallFloat(c *hlib.Ctx, n int) {
 	for i := 0; i < n; i++ {
 		x := randDistTransform(c, 2)
-		f := x.t.ApplyDistance(1)
+		f, fok := factor3(c, x.t, x.name)
+		if !fok {
+			continue
+		}
 		if c.Rng.Intn(3) != 0 {
 			// triangle soup
 			k := 1 + c.Rng.Intn(4)
@@ -491,7 +616,10 @@ func runXfBallFloat(c *hlib.Ctx, n int) {
 	}
 	for i := 0; i < n/2; i++ {
 		t, name := randDistTransform2(c, 2)
-		f := t.ApplyDistance(1)
+		f, fok := factor2(c, t, name)
+		if !fok {
+			continue
+		}
 		if c.Rng.Intn(3) != 0 {
 			k := 1 + c.Rng.Intn(4)
 			var segs []*model2d.Segment
